@@ -723,6 +723,46 @@ func engineC41(c *vctx) error {
 	}
 
 	// (g) tree iterator with unknown keys
+	// corpus: unknown members whose VALUES mention "nodes" (nested key, string value, inside arrays),
+	// before and after the real nodes member
+	{
+		mk := func(names ...string) (string, string) {
+			var js, terms []string
+			for _, nm := range names {
+				enc, _ := json.Marshal(c41SmallNode([]byte(nm), 1))
+				js = append(js, string(enc))
+				terms = append(terms, coqHex([]byte(nm)))
+			}
+			return "[" + strings.Join(js, ",") + "]", "(C41m.nodes_key, JNodes " + coqList(terms) + ")"
+		}
+		other := func(key, val string) (string, string) {
+			return strconv.Quote(key) + ":" + val, fmt.Sprintf("(%s, JOther %s)", coqStr(key), coqBool(val[0] == '['))
+		}
+		type member struct{ js, term string }
+		nodes := func(names ...string) member { j, t := mk(names...); return member{`"nodes":` + j, t} }
+		unk := func(key, val string) member { j, t := other(key, val); return member{j, t} }
+		for _, ms := range [][]member{
+			{unk("summary", `{"nodes":[]}`), nodes("a", "b", "c")},
+			{unk("kind", `"nodes"`), nodes("a")},
+			{unk("stats", `{"nodes":3}`), nodes("a", "b")},
+			{unk("x", `["nodes",{"nodes":[1]}]`), nodes("a")},
+			{nodes("a"), unk("after", `{"nodes":[]}`), unk("s", `"nodes"`)},
+			{unk("a", `"nodes"`), unk("b", `["nodes"]`), nodes(), unk("c", `"nodes"`)},
+			{unk("deep", `{"a":{"nodes":[{"name":"zz"}]},"nodes":{"nodes":"nodes"}}`), nodes("a", "b")},
+			{unk("n", `[[["nodes"]],"nodes"]`), unk("m", `{"nodes":["nodes"]}`), nodes("q"), unk("z", `{"nodes":[{"name":"late"}]}`)},
+			{unk("only", `{"nodes":[{"name":"zz"}]}`)},
+		} {
+			var js, terms []string
+			for _, m := range ms {
+				js = append(js, m.js)
+				terms = append(terms, m.term)
+			}
+			blob := "{" + strings.Join(js, ",") + "}\n"
+			obs := c41Iterate([]byte(blob))
+			c.Hist("iter:" + strings.Fields(strings.Trim(obs, "()"))[0])
+			c.Case("iter-nodes-in-unknown", true, len(ms), fmt.Sprintf("C41m.CIter %s %s", coqList(terms), obs), fmt.Sprintf("json=%q -> %.60s", blob, obs))
+		}
+	}
 	rng = c.rng.fork()
 	for i := c.n(60, 1200); i > 0; i-- {
 		var sb bytes.Buffer
